@@ -100,10 +100,11 @@ func c02storeTree(f *c04fixture, nodes string) error {
 	return nil
 }
 
-// c02repeated builds (once) the shape of tree(root, k) in which the last child is hosted by the server of the
-// first child: two nodes of the tree have the same node id (ids derive from the server's key).
-func c02repeated(f *c04fixture, root bool, k int) c04tree {
-	key := fmt.Sprint("rep", root, k)
+// c02repeated builds (once) the shape of tree(root, k) in which the last child is hosted by the server of
+// node `dup` (the first child, or — dup 0 on an inner receiver — the receiver's parent): two nodes of the
+// tree have the same node id (ids derive from the server's key).
+func c02repeated(f *c04fixture, root bool, k int, dup int) c04tree {
+	key := fmt.Sprint("rep", root, k, dup)
 	if t, ok := f.trees[key]; ok {
 		return t
 	}
@@ -120,7 +121,7 @@ func c02repeated(f *c04fixture, root bool, k int) c04tree {
 		member = append(member, first+i)
 	}
 	parent = append(parent, first-1)
-	member = append(member, first)
+	member = append(member, dup)
 	t, nodes := fix.BuildTree(f.roster(k+2), parent, member)
 	ct := c04tree{t, nodes[first-1], first - 1}
 	f.cl.Overlay(ct.srv).RegisterTree(ct.t)
